@@ -536,6 +536,11 @@ func GenFlattenCase(d *D, cfg BundleCfg) *FlattenCase {
 		p := g.Pick(pathPool)
 		pi := O{}
 		wantPathParams := g.Pct(30)
+		var pathParam J
+		pathHasBody := false
+		if wantPathParams {
+			pathParam, pathHasBody = g.param(params, true)
+		}
 		for _, m := range []string{"get", "put", "post", "delete", "options", "head", "patch"} {
 			if !g.Pct(25) {
 				continue
@@ -546,8 +551,11 @@ func GenFlattenCase(d *D, cfg BundleCfg) *FlattenCase {
 			}
 			if g.Pct(60) {
 				var ps A
+				hasBody := pathHasBody
 				for j := g.Int(1, 2); j > 0; j-- {
-					ps = append(ps, g.param(params))
+					p, b := g.param(params, !hasBody)
+					hasBody = hasBody || b
+					ps = append(ps, p)
 				}
 				op["parameters"] = ps
 			}
@@ -577,7 +585,7 @@ func GenFlattenCase(d *D, cfg BundleCfg) *FlattenCase {
 		}
 		if wantPathParams && (len(pi) > 0 || !cfg.NoOplessPathParams) {
 			g.Label("path-level-params")
-			pi["parameters"] = A{g.param(params)}
+			pi["parameters"] = A{pathParam}
 		}
 		paths[p] = pi
 	}
@@ -612,19 +620,35 @@ func (g *bgen) auxWith(section string) []string {
 	return out
 }
 
-func (g *bgen) param(shared O) J {
+// param draws one parameter; isBody tells whether it is (or refers to) a body parameter.
+// Swagger 2.0 allows at most one body parameter per operation (path-level ones included): when
+// allowBody is false only non-body parameters are drawn.
+func (g *bgen) param(shared O, allowBody bool) (p J, isBody bool) {
 	if as := g.auxWith("parameters"); len(as) > 0 && g.Pct(25) {
 		g.Label("ref:remote-parameter")
-		return O{"$ref": g.Pick(as) + Frag("parameters", g.Pick([]string{"rq", "rp"}))}
+		which := "rq"
+		if allowBody && g.Bool() {
+			which = "rp"
+		}
+		return O{"$ref": g.Pick(as) + Frag("parameters", which)}, which == "rp"
 	}
 	if len(shared) > 0 && g.Pct(35) {
-		g.Label("ref:shared-parameter")
-		return O{"$ref": Frag("parameters", g.Pick(SortedKeys(shared)))}
+		var names []string
+		for _, n := range SortedKeys(shared) {
+			if allowBody || Obj(shared[n])["in"] != "body" {
+				names = append(names, n)
+			}
+		}
+		if len(names) > 0 {
+			g.Label("ref:shared-parameter")
+			n := g.Pick(names)
+			return O{"$ref": Frag("parameters", n)}, Obj(shared[n])["in"] == "body"
+		}
 	}
-	if g.Pct(60) {
-		return O{"name": "body", "in": "body", "schema": g.schema("", 0, true)}
+	if allowBody && g.Pct(60) {
+		return O{"name": "body", "in": "body", "schema": g.schema("", 0, true)}, true
 	}
-	return O{"name": "q", "in": "query", "type": "array", "items": O{"type": "string"}}
+	return O{"name": "q", "in": "query", "type": "array", "items": O{"type": "string"}}, false
 }
 
 // addAnonPointers plants $refs to direct sub-schemas of root definitions, or to the schema of a
